@@ -11,6 +11,7 @@ From WG Require Import Par.Splice.
 From WG Require Import Flags.Props.
 From WG Require Import Visits.Bfs.
 From WG Require Import Visits.Dfs.
+From WG Require Import Algo.HyperBall.
 
 Extraction Language OCaml.
 
@@ -85,4 +86,12 @@ Extraction "model.ml"
   pre_nodes
   post_nodes
   flagged
+  hb_run_regs
+  cs_curr
+  cs_mod
+  cs_flags
+  cs_check
+  regs_sync
+  ball_sizes
+  hb_refused
 .
